@@ -42,6 +42,9 @@ pub fn programs_level(level: u8, tags: bool) -> Vec<Program> {
             T::Cmp(Tag::Rec, vec![x.clone(), T::Cmp(Tag::Rec, vec![y.clone(), T::Nil])]),
             T::Cmp(Tag::Holder, vec![T::Cmp(Tag::OptSome, vec![x.clone()]), y.clone()]),
             T::Cmp(Tag::Holder, vec![T::Cmp(Tag::OptNone, vec![]), x.clone()]),
+            T::Cmp(Tag::Holder2, vec![x.clone(), T::Cmp(Tag::OptSome, vec![y.clone()])]),
+            T::Cmp(Tag::Holder2, vec![x.clone(), T::Cmp(Tag::OptNone, vec![])]),
+            T::Cmp(Tag::Outer, vec![x.clone(), T::Cmp(Tag::Named, vec![y.clone(), T::I(1)])]),
         ]);
     }
     let shapes1: Vec<Option<T>> = vec![None, Some(y.clone()), Some(T::list(vec![y.clone(), x.clone()])), Some(T::I(5)), Some(T::Cmp(Tag::Box1, vec![y.clone()]))];
